@@ -173,6 +173,38 @@ theorem mismatch_dataclass (path : Path) (cls : String) (fs : List (String × Tr
         rw [(subsetKeys_iff _ _).mpr h] at hs; cases hs
       simp [this]
 
+/-- **a surplus key is never silently dropped by a dataclass restore**. In `Tree.struct cls fs aux`,
+`fs` are the *data* (pytree-node) fields only — exactly the keys `to_state_dict` writes — and the
+static `pytree_node=False` fields live in `aux`. A saved state with any key outside `fs`, in particular
+one named like a static field of the same class (a `TrainState` state dict carrying `tx`), or with a
+data field missing, makes `from_state_dict` raise. -/
+theorem dataclass_key_set_must_match (cls : String) (fs : List (String × Tree)) (aux : Nat)
+    (skvs : List (String × STree)) (hw : (Tree.struct cls fs aux).wf = true)
+    (hs : (STree.dict skvs).wf = true) (hnl : (STree.dict skvs).noLegacy = true)
+    (hdiff : (∃ k, k ∈ keys skvs ∧ k ∉ keys fs) ∨ (∃ k, k ∈ keys fs ∧ k ∉ keys skvs)) :
+    ∃ e, fromStateDict (.struct cls fs aux) (.dict skvs) = .error e := by
+  cases hc : localCheck ["."] (.struct cls fs aux) (.dict skvs) with
+  | some e =>
+    exact restore_rejects _ _ hw hs hnl [] _ _ e (by simp [Tree.sub]) (by simp [STree.sub]) (by simpa using hc)
+  | none =>
+    have := (mismatch_dataclass ["."] cls fs aux skvs).mp hc
+    rcases hdiff with ⟨k, h1, h2⟩ | ⟨k, h1, h2⟩
+    · exact absurd (this.2 k h1) h2
+    · exact absurd (this.1 k h1) h2
+
+/-- and when the state's own node has that problem, the error raised at the top level is one of the two
+`ValueError`s of the dataclass handler, naming the path — unless restoring an earlier field failed first -/
+theorem dataclass_surplus_key_error (path : Path) (cls : String) (fs : List (String × Tree)) (aux : Nat)
+    (skvs : List (String × STree)) (k : String) (hk : k ∈ keys skvs) (hnk : k ∉ keys fs)
+    (hall : ∀ f ∈ keys fs, f ∈ keys skvs) :
+    localCheck path (.struct cls fs aux) (.dict skvs) = some (.unknownFields path) := by
+  have hm : firstMissing (keys fs) (keys skvs) = none := firstMissing_none_of_all _ _ hall
+  have hs : subsetKeys (keys skvs) (keys fs) = false := by
+    cases h : subsetKeys (keys skvs) (keys fs) with
+    | false => rfl
+    | true => exact absurd ((subsetKeys_iff _ _).mp h k hk) hnk
+  simp [localCheck, hm, hs]
+
 /-- the pre-2022 namedtuple encoding `{'name', 'fields', 'values'}` is converted to the current one
 and then restored like any other state (only for targets whose own fields are not these three) -/
 theorem legacy_restore (g : Bool) (path : Path) (cls : String) (fs : List (String × Tree))
